@@ -57,7 +57,14 @@ PROVED = (
     'arctan2) equals inv_rotate_translate o rotate_translate o from_cart for all rotation vectors incl. the zero '
     'vector/nan_to_num branch (C15_projection_paths_agree, C15_projection_paths_zero_rotation, '
     'C15_code_projection_paths_agree); IPPE<->CF permutations are inverse rotations and transfer solutions and '
-    'image points correctly (C15_ippe_permutation_inverse); C15_code_matches_model.')
+    'image points correctly (C15_ippe_permutation_inverse); C15_code_matches_model. Object level (heap of mutable poses): '
+    'composition returns a new object for every operand pair incl. identity, so in-place scale() of a product leaves the '
+    'operands and the laws intact (C15_compose_fresh, C15_scale_product_keeps_operands); an identity fast path that returns '
+    'an operand is refuted on a concrete heap (C15_identity_fastpath_refuted). Constructors/getters of the views are mutually '
+    'inverse on their domains (C15_view_constructors_getters_inverse: |r|<pi through the matrix, half turn when the quaternion '
+    'is kept, antipodal/rescaled quaternions), default constructors = identity, Pose.scale laws (C15_scale_laws), half-turn '
+    'form of the solver rotation (C15_solver_rotation_half_turn), ties for scale/matrix_vec/from_rot_vec/from_quat/'
+    '_params_to_pose/_poses_to_angle_pairs/list helpers (C15_code_matches_model_2, C15_code_params_paths_agree).')
 NOT_PROVED = (
     '"To float32 accuracy": IEEE rounding (float32 casts in cart/projection, float64 elsewhere) is not modelled; it is '
     'validated numerically (tolerance 1e-5 relative for float32 outputs, 1e-9 for float64) on a dense grid, not proved. '
@@ -72,48 +79,9 @@ GEN_FILE = os.path.join(coqrun.COQ_DIR, 'C15', 'Gen_Formulas.v')
 _state = {}
 
 
-# ------------------------------------------------------------------------------------------ specification trees
-def _spec_trees():
-    """Python transport of the Coq definitions rodrigues / quat_of_rotvec / quat_mat (Model.v); GenTie.v proves the
-    emitted trees equal to those definitions, the tie step evaluates them against scipy."""
-    v = TR.var
-    th = ('sqrt', ('add', ('add', ('sqr', v(0)), ('sqr', v(1))), ('sqr', v(2))))
-    k = [('nandiv', v(i), th) for i in range(3)]
-    c, s = ('cos', th), ('sin', th)
-    d = ('sub', ('int', 1), c)
-
-    def dk(i, j):
-        return ('mul', ('mul', d, k[i]), k[j])
-
-    def sk(i):
-        return ('mul', s, k[i])
-    rod = [('add', c, dk(0, 0)), ('sub', dk(0, 1), sk(2)), ('add', dk(0, 2), sk(1)),
-           ('add', dk(1, 0), sk(2)), ('add', c, dk(1, 1)), ('sub', dk(1, 2), sk(0)),
-           ('sub', dk(2, 0), sk(1)), ('add', dk(2, 1), sk(0)), ('add', c, dk(2, 2))]
-    half = ('div', th, ('int', 2))
-    qrv = [('mul', k[i], ('sin', half)) for i in range(3)] + [('cos', half)]
-    x, y, z, w = v(0), v(1), v(2), v(3)
-
-    def m(a, b):
-        return ('mul', a, b)
-
-    def two(a):
-        return ('mul', ('int', 2), a)
-
-    def one_minus(a):
-        return ('sub', ('int', 1), two(a))
-    qm = [one_minus(('add', m(y, y), m(z, z))), two(('sub', m(x, y), m(z, w))), two(('add', m(x, z), m(y, w))),
-          two(('add', m(x, y), m(z, w))), one_minus(('add', m(x, x), m(z, z))), two(('sub', m(y, z), m(x, w))),
-          two(('sub', m(x, z), m(y, w))), two(('add', m(y, z), m(x, w))), one_minus(('add', m(x, x), m(y, y)))]
-    return {'spec_rodrigues': {'inputs': 3, 'outputs': rod, 'float32': False},
-            'spec_quat_of_rotvec': {'inputs': 3, 'outputs': qrv, 'float32': False},
-            'spec_quat_mat': {'inputs': 4, 'outputs': qm, 'float32': False}}
-
-
 def generate(ctx):
     _state.clear()
     fs, info = TR.translate(ctx.repo)
-    fs.update(_spec_trees())
     text = TR.emit_coq(fs, info)
     old = open(GEN_FILE).read() if os.path.exists(GEN_FILE) else None
     if old != text:
@@ -127,7 +95,6 @@ def generate(ctx):
 def _functions(ctx):
     if 'fs' not in _state:
         fs, info = TR.translate(ctx.repo)
-        fs.update(_spec_trees())
         _state['fs'], _state['info'] = fs, info
     return _state['fs']
 
@@ -169,6 +136,14 @@ def rotvecs(ctx, n_rand):
         out.append(('quarter_turn', [math.pi / 2 * a for a in ax]))
         for mag in (1e-9, 1e-12, 1e-6):
             out.append(('tiny', [mag * a for a in ax]))
+    # singular / boundary angles on all coordinate axes and space diagonals (every run)
+    r3 = 1.0 / math.sqrt(3.0)
+    axes = [[1, 0, 0], [0, 1, 0], [0, 0, 1], [-1, 0, 0], [0, -1, 0], [0, 0, -1]] + \
+           [[sx * r3, sy * r3, sz * r3] for sx in (1, -1) for sy in (1, -1) for sz in (1, -1)] + \
+           [[math.sqrt(0.5), math.sqrt(0.5), 0.0], [0.0, -math.sqrt(0.5), math.sqrt(0.5)]]
+    for ax in axes:
+        for th in (0.0, 1e-12, 1e-8, 1e-4, math.pi - 1e-8, math.pi, math.pi + 1e-8):
+            out.append(('boundary' if th else 'identity', [th * a for a in ax]))
     for _ in range(max(4, n_rand // 8)):
         u = _unit(ctx)
         out.append(('half_turn', [math.pi * a for a in u]))
@@ -247,7 +222,7 @@ def tie(ctx):
             return 'raise ' + type(e).__name__
 
     # ---- lighthouse_bs_vector.py over the field of view
-    pts = fov_grid(ctx, *ctx.scale((161, 111, 3000), (481, 331, 30000)))
+    pts = fov_grid(ctx, *ctx.scale((121, 83, 2000), (481, 331, 30000)))
     for (h, v) in pts:
         nt = abs(h) > 1e-12 and abs(v) > 1e-12
         b = BV(h, v)
@@ -286,6 +261,43 @@ def tie(ctx):
         sc = ctx.rng.uniform(0.2, 5.0)          # from_quat normalises
         check('scipy Rotation.from_quat(k u) normalises', 'spec_quat_mat', qv,
               run(lambda: list(Pose.from_quat([sc * a for a in qv]).rot_matrix.ravel())), (0, 1e-12), nt, 'scipy_' + kind)
+    # constructors / getters through the specification trees, incl. the boundary angles
+    for kind, r in rvs:
+        nt = kind != 'identity'
+        t = _tvec(ctx)
+        th = math.sqrt(sum(a * a for a in r))
+
+        def flatp(pp):
+            return list(pp.rot_matrix.ravel()) + list(pp.translation)
+        check('Pose.from_rot_vec', 'pose_from_rot_vec', list(r) + t, run(lambda: flatp(Pose.from_rot_vec(r, t))), (0, 1e-12), nt, 'ctor_' + kind)
+        check('LighthouseGeometrySolver._params_to_pose', 'solver_params_to_pose', list(r) + t,
+              run(lambda: flatp(GS._params_to_pose(np.array(list(r) + t), LighthouseGeometrySolution()))), (0, 1e-12), nt, 'ctor_' + kind)
+        qv = E('spec_quat_of_rotvec', r)
+        k = ctx.rng.choice((1.0, -1.0, 0.3, -2.5))
+        check('Pose.from_quat (any multiple, antipodal)', 'pose_from_quat', [k * a for a in qv] + t,
+              run(lambda: flatp(Pose.from_quat([k * a for a in qv], t))), (0, 1e-12), nt, 'ctor_' + kind)
+        if th <= math.pi:
+            # getters: rot_quat = +-(k sin(th/2), cos(th/2)); rot_vec = quat_to_rotvec of it (axis sign free at th = pi)
+            P = Pose.from_rot_vec(r, t)
+            got_q, got_r = run(lambda: list(P.rot_quat)), run(lambda: list(P.rot_vec))
+            n_eval += 2
+            dist['getter_' + kind] = dist.get('getter_' + kind, 0) + 2
+            want_r = E('spec_quat_to_rotvec', qv)
+            near = th > math.pi - 1e-3
+            tol = 1e-6 if near else 1e-9
+            okq = not isinstance(got_q, str) and min(max(abs(a - b) for a, b in zip(got_q, qv)),
+                                                     max(abs(a + b) for a, b in zip(got_q, qv))) <= tol
+            okr = not isinstance(got_r, str) and (max(abs(a - b) for a, b in zip(got_r, want_r)) <= tol or
+                                                  (near and max(abs(a + b) for a, b in zip(got_r, want_r)) <= tol))
+            okw = max(abs(a - b) for a, b in zip(want_r, r)) <= 1e-9          # C15_view_constructors_getters_inverse
+            if not (okq and okr and okw) and len(dis) < 12:
+                dis.append({'what': 'Pose.rot_quat / rot_vec differ from quat_of_rotvec / quat_to_rotvec (specification '
+                                    'trees of the getters)', 'function': 'spec_quat_to_rotvec', 'input': list(r),
+                            'model': [qv, want_r], 'impl': [got_q, got_r]})
+    for name in ('from_rot_vec', 'from_quat'):
+        P = run(lambda: getattr(Pose, name)())
+        check('Pose.%s() default' % name, 'pose_%s_default' % name, [],
+              P if isinstance(P, str) else list(P.rot_matrix.ravel()) + list(P.translation), (0, 0), False, 'pose')
     o = Pose()
     check('Pose() default', 'pose_default', [], list(o.rot_matrix.ravel()) + list(o.translation), (0, 0), False, 'pose')
     for i, (kind, r) in enumerate(rvs):
@@ -298,6 +310,16 @@ def tie(ctx):
         envP = list(R.ravel()) + t
         envQ = list(R2.ravel()) + t2
         check('Pose(R,t) stores R,t', 'pose_fields', envP, list(P.rot_matrix.ravel()) + list(P.translation), (0, 0), nt, 'pose')
+        kk = ctx.rng.choice((1.0, 0.5, 2.0, ctx.rng.uniform(0.1, 5.0)))
+
+        def scaled():
+            S2 = Pose(R, t)
+            ret = S2.scale(kk)
+            assert ret is None
+            return list(S2.rot_matrix.ravel()) + list(S2.translation)
+        check('Pose.scale', 'pose_scale', envP + [kk], run(scaled), F64, nt, 'pose')
+        check('Pose.matrix_vec', 'pose_matrix_vec', envP,
+              run(lambda: list(P.matrix_vec[0].ravel()) + list(P.matrix_vec[1])), (0, 0), nt, 'pose')
         check('Pose.rotate_translate', 'pose_rotate_translate', envP + x, run(lambda: list(P.rotate_translate(x))), F64, nt, 'pose')
         check('Pose.inv_rotate_translate', 'pose_inv_rotate_translate', envP + x,
               run(lambda: list(P.inv_rotate_translate(x))), F64, nt, 'pose')
@@ -347,6 +369,29 @@ def tie(ctx):
         # atan2 is ill-conditioned only where both arguments vanish; keep the comparison at 1e-9
         check('LighthouseGeometrySolver._calc_angle_pairs (row %d of a batch of %d)' % (i, n), 'solver_calc_angle_pairs',
               env, out if isinstance(out, str) else list(out[i]), (1e-9, 1e-9), kind != 'identity+identity', 'solver_pairs')
+
+    idx = np.array([ctx.rng.randrange(n) for _ in range(n)])
+    idx_c = np.array([ctx.rng.randrange(n) for _ in range(n)])
+    idx_s = np.array([ctx.rng.randrange(n) for _ in range(n)])
+    with warnings.catch_warnings():
+        warnings.simplefilter('ignore')
+        out2 = run(lambda: GS._poses_to_angle_pairs(bs, cf, sens, idx, idx_c, idx_s, defs))
+    for i in range(n):
+        env = list(bs[idx[i]]) + list(cf[idx_c[i]]) + list(sens[idx_s[i]])
+        check('LighthouseGeometrySolver._poses_to_angle_pairs (row %d, index arrays)' % i, 'solver_poses_to_angle_pairs',
+              env, out2 if isinstance(out2, str) else list(out2[i]), (1e-9, 1e-9), True, 'solver_pairs')
+
+    # ---- LighthouseBsVectors list helpers
+    from cflib.localization.lighthouse_bs_vector import LighthouseBsVectors
+    for j in range(0, min(len(pts), ctx.scale(400, 4000)) - 4, 4):
+        four = pts[j:j + 4]
+        lst = LighthouseBsVectors([BV(h, v) for h, v in four])
+        pl, al = run(lambda: lst.projection_pair_list()), run(lambda: lst.angle_list())
+        for m_, (h, v) in enumerate(four):
+            check('LighthouseBsVectors.projection_pair_list (row %d)' % m_, 'bsvs_projection_pair_row', [h, v],
+                  pl if isinstance(pl, str) else list(pl[m_]), F32, True, 'bsv_f32')
+            check('LighthouseBsVectors.angle_list (entries %d, %d)' % (2 * m_, 2 * m_ + 1), 'bsvs_angle_list_row', [h, v],
+                  al if isinstance(al, str) else list(al[2 * m_:2 * m_ + 2]), (0, 0), True, 'bsv')
 
     # ---- ippe_cf.py
     check('IppeCf._R_ippe_to_cf', 'ippe_R_ippe_to_cf', [], list(IppeCf._R_ippe_to_cf.ravel()), (0, 0), True, 'ippe')
@@ -1221,7 +1266,7 @@ def oracle(ctx, deep=False):
     elif deep:            # failure search inside the quick tier: keep the whole run under a minute
         pts = fov_grid(ctx, 481, 331, 30000)
     else:
-        pts = fov_grid(ctx, 321, 221, 10000)
+        pts = fov_grid(ctx, 241, 167, 8000)
     for (h, v) in pts:
         n += _oracle_bsv(h, v, fails)
     rvs = rotvecs(ctx, sz(1500, 5000, 20000))
